@@ -171,3 +171,74 @@ def stark_config_concrete(h, name, steps, bound, lnc, n_queries=None, nvf=None):
         set_path(t, "vector.height", F(lt + lnc))
         set_path(t, "vector.n_verifier_friendly_commitment_layers", nvf)
     return cfg
+
+
+# ------------------------------------------------------------------------------------------------ native repair of counterexamples
+import copy
+import re
+
+_MISMATCH = re.compile(r"MisMatch \{ value: (0x[0-9a-fA-F]+), expected: (0x[0-9a-fA-F]+) \}")
+_OODS = re.compile(r"EvaluationInvalid \{ expected: (0x[0-9a-fA-F]+), actual: (0x[0-9a-fA-F]+) \}")
+
+
+def _hash_slots(node, path=()):
+    out = []
+    if isinstance(node, dict):
+        for k, v in node.items():
+            if k == "commitment_hash" and isinstance(v, str):
+                out.append(path + (k,))
+            else:
+                out += _hash_slots(v, path + (k,))
+    elif isinstance(node, list):
+        for i, v in enumerate(node):
+            out += _hash_slots(v, path + (i,))
+    return out
+
+
+def _get(node, path):
+    for p in path:
+        node = node[p]
+    return node
+
+
+def _set(node, path, v):
+    for p in path[:-1]:
+        node = node[p]
+    node[path[-1]] = v
+
+
+def repair_replay(req, layouts, want=lambda a: "panic" in a, rounds=8):
+    """A solver model interprets the hash functions freely, so its Merkle roots / claimed composition value are not the REAL hash values
+    of its other fields.  Those are free inputs of the replayed function: set them to what the real function computes (read off its
+    MisMatch / EvaluationInvalid error) and re-run, until the wanted behaviour shows or nothing changes.  Returns (request, answer, log)."""
+    req = copy.deepcopy(req)
+    log = []
+    ans = replay([req], layouts)[0]
+    for _ in range(rounds):
+        if want(ans) or "err" not in ans:
+            break
+        e = ans["err"]
+        m = _OODS.search(e)
+        if m and "toy" not in req or (m and req.get("toy", {}).get("composition") != m.group(1)):
+            req.setdefault("toy", {})["composition"] = m.group(1)
+            log.append("toy composition value := claimed composition %s" % m.group(1)[:14])
+            ans = replay([req], layouts)[0]
+            continue
+        m = _MISMATCH.search(e)
+        if m:
+            val, exp = m.group(1), m.group(2)
+            moved = False
+            for path in _hash_slots(req):
+                if int(_get(req, path), 16) != int(val, 16):
+                    continue
+                trial = copy.deepcopy(req)
+                _set(trial, path, exp)
+                a2 = replay([trial], layouts)[0]
+                if a2 != ans:
+                    req, ans, moved = trial, a2, True
+                    log.append("%s := real root %s.." % (".".join(str(p) for p in path), exp[:14]))
+                    break
+            if moved:
+                continue
+        break
+    return req, ans, log
